@@ -744,7 +744,7 @@ class Frame:
                 return ("bool", bool(c["int"]))
             if ty == "usize" and int(c["int"]) in (2 ** 64 - 1, 2 ** 32 - 1):
                 # usize::MAX stays symbolic (the same symbol bounds every usize quantity): width-independent reasoning
-                st.num.add(ge(Lin.sym("UM"), 0))
+                st.num.add(ge(Lin.sym("UM"), 65535))
                 return vint(Lin.sym("UM"))
             return vint(c["int"])
         if c.get("ty") == "()":
@@ -1543,7 +1543,7 @@ class Joiner:
                     out.num.add(c)
             # (3) constraint transfer: a constraint that one side knows about the old value of a changed location is kept, phrased
             #     about the joined location, if the other side entails it for its own value of that location
-            for (nself, defs_self, nother, defs_other) in ((na, defs_a, nb, defs_b), (nb, defs_b, na, defs_a)):
+            for (nself, defs_self, nother, defs_other) in (() if os.environ.get("LMV_NO_TRANSFER") else ((na, defs_a, nb, defs_b), (nb, defs_b, na, defs_a))):
                 rev = {}
                 for z in news:
                     d = defs_self.get(z)
